@@ -183,6 +183,19 @@ class NF:
             n += 1
         return s
 
+    def _with_siblings(self, a: Any, sib: dict) -> Any:
+        ar = self._res(a) if isinstance(a, dict) else a
+        if not isinstance(ar, dict) or any(k in ar for k in ("anyOf", "oneOf", "allOf", "enum", "const")):
+            return a
+        ts = [t for t in types_of(ar) if t != "null"]
+        if len(ts) != 1:
+            return a
+        keys = {"integer": BOUND_KEYS, "number": BOUND_KEYS, "string": STR_KEYS, "array": ARR_KEYS}.get(ts[0], ())
+        add = {k: v for k, v in sib.items() if k in keys and k not in ar}
+        if add and isinstance(a, dict) and "$ref" in a:
+            add["x-sibling-on-ref"] = True  # (the generator does not merge sibling keywords into a `$ref` member)
+        return {**ar, **add} if add else a
+
     def nf(self, s: Any, depth: int = 0) -> dict:
         if s is True or s is None:
             return {"k": "any"}
@@ -206,6 +219,13 @@ class NF:
         if alts:
             null = False
             out = []
+            # validation keywords written NEXT TO the combination hold for the value whichever member admits it:
+            # {"anyOf": [A, B], kw} ≡ {"anyOf": [A ∧ kw, B ∧ kw]}, and a keyword says nothing about a member of another
+            # type (maxLength about an integer). Each member gets the sibling keywords of its own type that it does not
+            # state itself — independently of its position in the list.
+            sib = {k: s[k] for k in (*BOUND_KEYS, *STR_KEYS, *ARR_KEYS) if s.get(k) is not None}
+            if sib:
+                alts = [self._with_siblings(a, sib) for a in alts]
             for a in alts:
                 ar = self._res(a)
                 if ar.get("type") == "null":
@@ -247,6 +267,8 @@ class NF:
             for k, v in (("minimum", mn), ("maximum", mx), ("exclusiveMinimum", emn), ("exclusiveMaximum", emx), ("multipleOf", s.get("multipleOf"))):
                 if v is not None:
                     n[k] = _num(v)
+            if s.get("x-sibling-on-ref"):
+                n["sibling_on_ref"] = True
             return n
         if t == "string":
             n = {"k": "scalar", "type": t, "null": null}
@@ -255,6 +277,8 @@ class NF:
                     n[k] = s[k]
             if n.get("minLength") == 0:
                 del n["minLength"]
+            if s.get("x-sibling-on-ref"):
+                n["sibling_on_ref"] = True
             return n
         if t == "boolean":
             return {"k": "scalar", "type": t, "null": null}
